@@ -71,6 +71,22 @@ type c10 struct {
 	total   uint64
 	tampers int
 	done    bool
+	// long-lived verifier (a third of the runs): one verifier object checks every proof of the run, honest and
+	// tampered; afterwards the honest proofs are checked on it once more
+	shared *wmpt.WeightedMerkleTrie
+	proofs []honestProof
+}
+
+type honestProof struct {
+	b     uint64
+	proof []byte
+}
+
+func (st *c10) verifier() *wmpt.WeightedMerkleTrie {
+	if st.shared != nil {
+		return st.shared
+	}
+	return wmpt.New(nil, nil)
 }
 
 // prove: the honest half for every probed block, then pick one proof for the channel.
@@ -96,6 +112,10 @@ func (w *world) prove(op WOp) {
 		return
 	}
 	st := &c10{root: root, sorted: sorted, total: total}
+	if (op.N/7)%3 == 0 {
+		st.shared = wmpt.New(nil, nil)
+		w.stats.Inc("probe.one-verifier-object-for-all-proofs")
+	}
 	blocks := probeBlocks(sorted, total)
 	for _, b := range blocks {
 		var key, proof, hash, val []byte
@@ -107,8 +127,11 @@ func (w *world) prove(op WOp) {
 			w.fail("c10.honest", "proof-error:"+w.errClass(err), "GetBlockProof(%d of %d) failed: %v", b, total, err)
 			return
 		}
-		if w.guard("VerifyBlockProof", func() { hash, val, err = wmpt.New(nil, nil).VerifyBlockProof(b, proof) }) {
+		if w.guard("VerifyBlockProof", func() { hash, val, err = st.verifier().VerifyBlockProof(b, proof) }) {
 			return
+		}
+		if st.shared != nil && len(st.proofs) < 64 {
+			st.proofs = append(st.proofs, honestProof{b, append([]byte{}, proof...)})
 		}
 		want, _ := refwmpt.Owner(sorted, b)
 		if err != nil {
@@ -376,9 +399,30 @@ func (w *world) verify() {
 	msg := encodeProof(st.nodes)
 	var hash, val []byte
 	var err error
-	if w.guard("VerifyBlockProof (tampered)", func() { hash, val, err = wmpt.New(nil, nil).VerifyBlockProof(st.asked, msg) }) {
+	if w.guard("VerifyBlockProof (tampered)", func() { hash, val, err = st.verifier().VerifyBlockProof(st.asked, msg) }) {
 		return
 	}
+	defer func() {
+		// whatever the verifier made of the tampered message, honest proofs still verify on it afterwards
+		for _, hp := range st.proofs {
+			if w.v != nil {
+				return
+			}
+			var h, v []byte
+			var e error
+			if w.guard("VerifyBlockProof (honest, after a tampered one)", func() { h, v, e = st.shared.VerifyBlockProof(hp.b, hp.proof) }) {
+				return
+			}
+			o, _ := refwmpt.Owner(st.sorted, hp.b)
+			switch {
+			case e != nil:
+				w.fail("c10.honest", "honest-proof-rejected-after-a-tampered-one", "the honest proof for block %d of %d is rejected by a verifier that has seen a tampered proof before: %v", hp.b, st.total, e)
+			case !bytes.Equal(h, st.root) || !bytes.Equal(v, o.Value):
+				w.fail("c10.honest", "honest-proof-wrong-after-a-tampered-one", "the honest proof for block %d verifies to root %x value %q on a verifier that has seen a tampered proof before (root %x, owner's value %q)", hp.b, h, v, st.root, o.Value)
+			}
+			w.stats.Inc("check.honest-proof-after-tampered")
+		}
+	}()
 	w.stats.Inc("check.verify")
 	if st.tampers > 0 {
 		w.stats.Inc("fault.any")
